@@ -76,6 +76,7 @@ def run(ctx, rep) -> None:
     rep.attempt("hyperparameters_from_group", hyperparameters_from_group, ctx, rep, "C13.5")
     rep.attempt("per_group_fresh", per_group_fresh, ctx, rep, "C13.5", ["distributed_shampoo.distributed_shampoo:DistributedShampoo._instantiate_shampoo_preconditioner_list"])
     kinds = pts.state_kinds()
+    judged: list = []  # (caller, call of the tolerance routine, tracker variable, enumerate index variable)
     for cq, (routine, kind) in LISTS.items():
         ci = repo.cls(cq)
         fi = repo.lookup_method(ci, "_amortized_computation")
@@ -139,12 +140,11 @@ def run(ctx, rep) -> None:
                 ok_scope = len(creates) == 1 and len(judge) == 1 and idx_inner >= 0 and outer.body.index(creates[0]) < idx_inner < outer.body.index(judge[0])
                 if ok_scope:
                     jc = [c for c in A.calls(judge[0]) if any(q.endswith("._raise_exception_if_failure_tolerance_exceeded") for q in pts.callees(fi.qual, c))][0]
-                    callee = repo.func(f"{PL_MOD}:BaseShampooPreconditionerList._raise_exception_if_failure_tolerance_exceeded")
-                    a_tr = A.arg_of(jc, callee, "success_tracker")
-                    a_ix = A.arg_of(jc, callee, "preconditioner_index")
                     enum_idx = outer.target.elts[0].id if isinstance(outer.target, ast.Tuple) and isinstance(outer.target.elts[0], ast.Name) and isinstance(outer.iter, ast.Call) and isinstance(outer.iter.func, ast.Name) and outer.iter.func.id == "enumerate" else None
-                    ok_scope = isinstance(a_tr, ast.Name) and a_tr.id == tracker and isinstance(a_ix, ast.Name) and a_ix.id == enum_idx
-                detail = f"tracker `{tracker}` created once per block before the factor loop, judged once per block after it with the block's enumerate index: {ok_scope}"
+                    # which tracker and which index reach the counter is decided on caller and callee together (C13.3)
+                    ok_scope = enum_idx is not None
+                    judged.append((fi, jc, tracker, enum_idx))
+                detail = f"tracker `{tracker}` created once per block before the factor loop, judged once per block after it: {ok_scope}"
             rep.ob("C13.1", f"{ci.name}:tracker-per-block", ok_scope, fi.loc(tr), detail, sample=True)
             # ---- C13.2 finiteness check dominates the copy, on the same value, outside the try
             for c in dsts:
@@ -222,69 +222,78 @@ def run(ctx, rep) -> None:
     reach_am = any(q.endswith("._amortized_computation") for q in pts.reachable_funcs([f"{DS}._update_preconditioners"]))
     ok = len(upd) == 1 and len(app) == 1 and reach_am and icfg.dominates(icfg.node_of(upd[0]), icfg.node_of(app[0]))
     rep.ob("C13.2", "refresh-precedes-parameter-update", ok, impl.loc(), "the call that can raise PreconditionerValueError dominates update_params in the group step (no parameter of the group is modified first)", sample=True)
-    rep.attempt("_counter_transition", _counter_transition, ctx, rep)
+    rep.attempt("_counter_transition", _counter_transition, ctx, rep, judged)
     rep.attempt("_write_through", _write_through, ctx, rep)
     rep.assume("torch semantics of isnan / isinf / copy_ (copy_ casts to the destination dtype)")
 
 
-def _counter_transition(ctx, rep) -> None:
+def _counter_transition(ctx, rep, judged: list) -> None:
+    """The tolerance routine is simulated *from each call site* (callee body with the call's argument expressions in place
+    of its parameters), over outcome lists x counts x tolerances x block positions: success => the block's own local
+    counter becomes 0; failure => +1 and the passed exception is raised iff the new count exceeds the tolerance; no other
+    counter changes.  Checking the composition makes the rule independent of which side translates the masked index."""
+    from ..canon import composed_call
+
     repo = ctx.repo
     fi = repo.func(f"{PL_MOD}:BaseShampooPreconditionerList._raise_exception_if_failure_tolerance_exceeded")
-    sp = spaces_engine(ctx)
-    # discover the attribute names the routine uses (counter list in L, optional masked->local index list)
-    attrs = sorted({n.attr for n in ast.walk(fi.node) if isinstance(n, ast.Attribute) and isinstance(n.value, ast.Name) and n.value.id == "self"})
-    bad = []
-    n = 0
+    rep.floor("C13.3", "call sites of the tolerance routine", len(judged), 2)
     trackers = [[True], [True, True], [False], [True, False], [False, False], []]
-    for tracker, c, tol, idx in itertools.product(trackers, range(0, 5), range(0, 4), (0, 1)):
-        local_counters = [7, 7, 7]
-        masked_to_local = [2, 0]
-        target = masked_to_local[idx]
-        local_counters[target] = c
-        selfobj = SimpleNamespace()
-        for a in attrs:
-            if "index" in a:
-                setattr(selfobj, a, list(masked_to_local))
-            elif "counter" in a:
-                if "masked" in a:
-                    setattr(selfobj, a, [c if i == idx else 7 for i in range(2)])
-                else:
-                    setattr(selfobj, a, list(local_counters))
-            elif a == "_preconditioner_config":
-                setattr(selfobj, a, SimpleNamespace(num_tolerated_failed_amortized_computations=tol))
-        env = {"self": selfobj, "success_tracker": list(tracker), "preconditioner_index": idx, "exception": "<exception>"}
-        it = Interp(env)
-        raised = None
-        try:
-            it.run([s for s in fi.node.body if not (isinstance(s, ast.Expr) and isinstance(s.value, ast.Constant))], lambda e: ast.unparse(e))
-        except Raised as r:
-            raised = r.exc_name
-        except Unsupported as u:
-            raise AnalysisError(f"C13.3: tolerance routine outside the sub-language: {u}") from u
-        want_c = 0 if all(tracker) else c + 1
-        want_raise = (not all(tracker)) and (c + 1 > tol)
-        # the block's own counter: through the index map if one is used, else directly
-        got_local = getattr(selfobj, next((a for a in attrs if "counter" in a and "masked" not in a), ""), None)
-        got_masked = getattr(selfobj, next((a for a in attrs if "counter" in a and "masked" in a), ""), None)
-        if got_local is not None:
-            exp = [7, 7, 7]
-            exp[target] = want_c
-            ok_c = got_local == exp
-        else:
-            ok_c = got_masked is not None and got_masked[idx] == want_c
-        n += 1
-        if not ok_c or (raised is not None) != want_raise or (raised not in (None, "exception")):
-            bad.append((tracker, c, tol, idx, raised, got_local if got_local is not None else got_masked))
-    rep.ob(
-        "C13.3",
-        "counter-transition",
-        not bad,
-        fi.loc(),
-        f"{n} (outcomes, count, tolerance, block) cases: success => counter 0, failure => +1 and raise the passed exception iff new count > tolerance, only the block's own counter changes"
-        + (f"; first disagreement: tracker={bad[0][0]}, count={bad[0][1]}, tolerance={bad[0][2]}, masked index={bad[0][3]} -> raised={bad[0][4]}, counters={bad[0][5]}" if bad else ""),
-        sample=True,
-    )
-    # tolerance operand is the config's field (checked through the run above by name) and the routine is reached per block (C13.1)
+    for caller, call, tracker_var, idx_var in judged:
+        body = composed_call(fi.node, True, call, caller.node)
+        if body is None:
+            raise AnalysisError(f"C13.3: cannot compose {short(caller.qual)} with the tolerance routine")
+        holder = ast.Module(body=body, type_ignores=[])
+        attrs = sorted({n.attr for n in ast.walk(holder) if isinstance(n, ast.Attribute) and isinstance(n.value, ast.Name) and n.value.id == "self"})
+        exc_arg = None
+        bad = []
+        n = 0
+        for tracker, c, tol, idx in itertools.product(trackers, range(0, 5), range(0, 4), (0, 1)):
+            local_counters = [7, 7, 7]
+            masked_to_local = [2, 0]
+            target = masked_to_local[idx]
+            local_counters[target] = c
+            selfobj = SimpleNamespace()
+            for a in attrs:
+                if "index" in a:
+                    setattr(selfobj, a, list(masked_to_local))
+                elif "counter" in a:
+                    if "masked" in a:
+                        setattr(selfobj, a, [c if i == idx else 7 for i in range(2)])
+                    else:
+                        setattr(selfobj, a, list(local_counters))
+                elif a == "_preconditioner_config":
+                    setattr(selfobj, a, SimpleNamespace(num_tolerated_failed_amortized_computations=tol))
+            env = {"self": selfobj, tracker_var: list(tracker), idx_var: idx}
+            it = Interp(env)
+            raised = None
+            try:
+                it.run([s for s in body if not (isinstance(s, ast.Expr) and isinstance(s.value, ast.Constant))], lambda e: ast.unparse(e))
+            except Raised as r:
+                raised = r.exc_name
+            except Unsupported as u:
+                raise AnalysisError(f"C13.3: tolerance routine (composed with {short(caller.qual)}) outside the sub-language: {u}") from u
+            want_c = 0 if all(tracker) else c + 1
+            want_raise = (not all(tracker)) and (c + 1 > tol)
+            got_local = getattr(selfobj, next((a for a in attrs if "counter" in a and "masked" not in a), ""), None)
+            got_masked = getattr(selfobj, next((a for a in attrs if "counter" in a and "masked" in a), ""), None)
+            if got_local is not None:
+                exp = [7, 7, 7]
+                exp[target] = want_c
+                ok_c = got_local == exp
+            else:
+                ok_c = got_masked is not None and got_masked[idx] == want_c
+            n += 1
+            if not ok_c or (raised is not None) != want_raise or (raised not in (None, "exception", "ValueError")):
+                bad.append((tracker, c, tol, idx, raised, got_local if got_local is not None else got_masked))
+        rep.ob(
+            "C13.3",
+            f"counter-transition:{short(caller.qual)}",
+            not bad,
+            caller.loc(call),
+            f"{n} (outcomes, count, tolerance, block) cases through the call in {short(caller.qual)}: success => counter 0, failure => +1 and raise the passed exception iff new count > tolerance, only the block's own (local) counter changes"
+            + (f"; first disagreement: tracker={bad[0][0]}, count={bad[0][1]}, tolerance={bad[0][2]}, masked index={bad[0][3]} -> raised={bad[0][4]}, counters={bad[0][5]}" if bad else ""),
+            sample=True,
+        )
 
 
 def _write_through(ctx, rep) -> None:
